@@ -135,3 +135,59 @@ Lemma ex5_examples :
   label_at ex5_labels1 2 = Some (ident1 (SBox (SVec (SPrimT PU16)))) /\
   registry_of1b ex5_defs ex5_labels ex5_reg = false /\ registry_ofb ex5_defs ex5_labels1 ex5_reg = false.
 Proof. repeat split; vm_compute; reflexivity. Qed.
+
+(** ** what [RegistryOf] describes beyond the agreement of [canon] and [ident1] is no registry of
+    scale-info: [a::Foo<T> { x: Vec<Box<T>>, y: Vec<T> }] at [u16] with ONE sequence entry for both
+    fields (what an interner that identifies types up to [canon] produces) satisfies [RegistryOf],
+    and NO labelling makes it a [RegistryOf1] registry (the id of the shared entry would have to
+    carry the labels [Vec<Box<a>>] and [Vec<a>]) *)
+Definition leg_defs : list sdef :=
+  [mk_sdef ["a"; "Foo"] [("T", false)]
+           (SBStruct [mk_sfield (Some "x") (SVec (SBox (SParam 0))) false true;
+                      mk_sfield (Some "y") (SVec (SParam 0)) false true])].
+Definition leg_foo : ty :=
+  mk_ty ["a"; "Foo"] [mk_tparam "T" (Some 1)]
+        (TDComposite [id1_fld "x" 2 "Vec<Box<T>>"; id1_fld "y" 2 "Vec<T>"]) [].
+Definition leg_reg : registry := [(0, leg_foo); (1, mk_ty [] [] (TDPrimitive PU16) []); (2, id1_seq 1)].
+Definition leg_labels : list (option src) :=
+  [Some (SApp 0 [SPrimT PU16]); Some (SPrimT PU16); Some (SVec (SPrimT PU16))].
+
+Lemma leg_RegistryOf : RegistryOf leg_defs (label_at leg_labels) leg_reg.
+Proof. apply registry_ofb_sound; vm_compute; reflexivity. Qed.
+
+Lemma box_no_fixpoint : forall t, SBox t <> t.
+Proof. induction t; intros H; try discriminate H. injection H as H. exact (IHt H). Qed.
+
+Lemma leg_no_RegistryOf1 : forall L, ~ RegistryOf1 leg_defs L leg_reg.
+Proof.
+  intros L (H1 & H2 & _).
+  destruct (L 0) as [c|] eqn:El.
+  2:{ destruct (H2 0 leg_foo eq_refl El) as (lsb & Hp & _). destruct lsb; discriminate Hp. }
+  destruct (H1 0 c El) as (_ & t & Hr & He). vm_compute in Hr. inversion Hr; subst t. clear Hr.
+  unfold entry_of1 in He. destruct (peel1 c) as [i|d xs|x|x|len x|xs|p|x|x|x|a b|a b|x|x|x|st lsb]; cbn [content_of1] in He.
+  - exact He.
+  - destruct He as (sd & Hsd & _ & Hlen & _ & Hbody).
+    destruct d as [|d]; [|destruct d; discriminate Hsd]. cbn [nth_error leg_defs] in Hsd. inversion Hsd; subst sd. clear Hsd.
+    cbn [sd_params List.length] in Hlen. destruct xs as [|a [|]]; try discriminate Hlen.
+    cbn [sd_body] in Hbody. destruct Hbody as (fl & Hfl & HF). cbn [leg_foo t_def] in Hfl. inversion Hfl; subst fl. clear Hfl.
+    inversion HF as [|? ? ? ? Hx HF1]; subst. inversion HF1 as [|? ? ? ? Hy _]; subst.
+    destruct Hx as (_ & Hx & _). destruct Hy as (_ & Hy & _).
+    unfold lab1 in Hx, Hy. cbn in Hx, Hy. rewrite Hx in Hy. inversion Hy as [E]. exact (box_no_fixpoint a E).
+  - destruct He as (e & (Hp & _) & _). discriminate Hp.
+  - exact He.
+  - destruct He as (e & (Hp & _) & _). discriminate Hp.
+  - destruct He as (e & (Hp & _) & _). discriminate Hp.
+  - destruct He as (Hp & _). discriminate Hp.
+  - destruct He as (e & (Hp & _) & _). discriminate Hp.
+  - exact He.
+  - destruct He as (e & _ & Hp & _). discriminate Hp.
+  - destruct He as (x & y & _ & _ & Hp & _). discriminate Hp.
+  - destruct He as (ik & iv & iseq & _ & _ & _ & Hp & _). discriminate Hp.
+  - destruct He as (e & iseq & _ & _ & Hp & _). discriminate Hp.
+  - destruct He as (e & _ & Hp & _). discriminate Hp.
+  - destruct He as (e & _ & Hp & _). discriminate Hp.
+  - destruct He as (ist & io & ot & (Hp & _) & _). discriminate Hp.
+Qed.
+
+Lemma leg_example : RegistryOf leg_defs (label_at leg_labels) leg_reg /\ forall L, ~ RegistryOf1 leg_defs L leg_reg.
+Proof. exact (conj leg_RegistryOf leg_no_RegistryOf1). Qed.
